@@ -42,14 +42,33 @@ class Case:
         return Case(self.cfg, ops, self.desc, self.tag, self.payload)
 
 
+EXC = "!exception "
+
+
+def _guarded(impl, case) -> list[str]:
+    """Run the implementation on one case.  An exception raised while driving the REAL objects (a change of /repo
+    may alter shapes, signatures or record formats the runner reads) is an observation, not an infrastructure
+    error: it makes the correspondence fail for this case and starts the failing-input search."""
+    try:
+        return impl(case)
+    except InfraError:
+        raise
+    except Exception as e:  # noqa: BLE001
+        import traceback
+
+        tb = traceback.extract_tb(e.__traceback__)
+        where = f"{tb[-1].filename}:{tb[-1].lineno}" if tb else "?"
+        return [f"{EXC}{type(e).__name__}: {str(e)[:300]} (at {where})"] * len(case.lines())
+
+
 def _worker(args):
     impl, case = args
-    return impl(case)
+    return _guarded(impl, case)
 
 
 def run_impl(impl, cases: Sequence[Case], procs: int = 1) -> list[list[str]]:
     if procs <= 1 or len(cases) < 4:
-        return [impl(c) for c in cases]
+        return [_guarded(impl, c) for c in cases]
     with mp.get_context("fork").Pool(procs) as pool:
         return pool.map(_worker, [(impl, c) for c in cases], chunksize=max(1, len(cases) // (procs * 4)))
 
@@ -82,7 +101,7 @@ def lockstep(
         ctx.count(f"cases_{case.tag}")
         if case.tag != "witness":
             ctx.sample({"cfg": case.cfg, "ops": case.ops[:8], "impl": out[1:9]}) if len(ctx.samples) < 3 else None
-        if monitor is None:
+        if monitor is None or out[0].startswith(EXC):
             continue
         fail = monitor(case, out)
         if fail:
@@ -135,6 +154,8 @@ def lockstep(
             eouts = run_impl(impl, extra, procs)
             for c, o in zip(extra, eouts):
                 ctx.count("search_cases")
+                if o and o[0].startswith(EXC):
+                    continue
                 f = monitor(c, o)
                 if f and not ctx.is_known(c.desc):
                     small = _shrink(c, impl, monitor)
